@@ -44,6 +44,8 @@ check("C01", "reads return the latest write through every layer", [
 check("C02", "acknowledged writes survive a crash; recovery yields a history prefix", [
     ob("VerifC02_CrashPrefix", "pkg/engine/storage", "puts with synchronous logging, the process dies at any file-system step (both crash models), reopen: recovered state is a prefix containing every acknowledged write",
        "<=2 puts to distinct keys, crash at every simfs operation, torn in-flight write (every length <=24 bytes), process-death and power-loss models"),
+    ob("VerifC02_CrashDuringMaintenance", "pkg/engine", "history put K1; flush (log rotation, SSTable write+rename); overwrite K0; [delete K1] on a database holding K0, synchronous logging; the process dies at any file-system step (both crash models, torn writes); recovered state = state after a prefix containing every acknowledged write; then a write, clean close and reopen",
+       "4-step history, memtable 1 B or default, every crash point", q={"budget_s": 500}),
     ob("VerifC02_CleanCloseReopen", "pkg/engine", "all three log sync modes; programs of small puts, deletes, a put at a log-fragment boundary (+-1), batches of 2/3 x 30 KiB (below/above the 64 KiB log buffer); clean close; reopen: state equals the pre-close state",
        "<=2 steps, 3 keys", "<=3 steps", q={"budget_s": 300}, t={"budget_s": 1800}),
 ], [SIMFS, CLOCK, HASH, BLOOM, RAND, LOG, TIERA, "crash counterexamples are replayed natively by materialising the post-crash directory image and running the native recovery on it"],
@@ -134,7 +136,9 @@ check("C11", "an SSTable reads back exactly what was written", [
 
 check("C12", "compaction preserves content; deleted keys stay deleted", [
     ob("VerifC12_CompactPreservesView", "pkg/compaction", "2-3 real SSTables with symbolic levels and tombstone placement, one compaction cycle, merged view before = after", "2-3 files, 2 keys, levels 0-1", q={"budget_s": 400}),
-], [SIMFS, CLOCK, HASH, BLOOM, LOG, TIERA], [])
+    ob("VerifC12_CompactionInWorkload", "pkg/engine", "put+flush / delete+flush / triggered compaction / retire-flushed-logs+reopen steps on an engine with a level-0 trigger of 2: after every step and at the end each key reads as its latest write says, also from the compacted files after a reopen with the old logs gone",
+       "2..4 steps, writes on 1 of 2 keys, probe over both", "2..5 steps, writes on both keys", q={"budget_s": 400}, t={"budget_s": 2400}),
+], [SIMFS, CLOCK, HASH, BLOOM, JSON, LOG, TIERA], ["range compaction (CompactRange)", "crash during compaction", "more than 3 input files in the directory-level harness"])
 
 check("C13", "a replica applies the primary's log in order, exactly once", [
     ob("VerifC13_ApplyStepInductive", "pkg/replication", "one step of WALBatchApplier.ApplyEntries from an arbitrary cursor with an arbitrary batch and an apply function failing at a symbolic index", "<=3 entries per batch"),
